@@ -248,6 +248,16 @@ func genChunk(o *Out, r *Rng, n int, tier string) {
 		}
 		o.emit("C13", "RAWE", hx(b), hx(genChunkMsg(r, tier).Enc()))
 	}
+	// the chunk key at every offset around the reader's buffer edges (2 KiB, 4 KiB), with kilobytes of option data
+	// behind it: a key that is looked at after the reader has moved on
+	for _, base := range []int{1900, 3950} {
+		for pad := base; pad < base+260; pad++ {
+			id := genChunkID(r)
+			m := nArr(nStr(bytes.Repeat([]byte("t"), pad)), nInt(7), nMap(),
+				nMap(nStr([]byte("chunk")), nStr(id), nStr([]byte("zz")), nBin(bytes.Repeat([]byte{0x7a}, 3000))))
+			o.emit("C11", "CHUNK", "a", hx(m.Enc()))
+		}
+	}
 	for i := 0; i < n; i++ {
 		if r.Chance(2) {
 			// several messages looked up at the same time, each by its own goroutines
